@@ -21,9 +21,10 @@ type C09W struct {
 	NCtrs   int    `json:"nctrs"`
 	Dist    string `json:"dist"` // small | uniform | near-limit | one-over | big-pods
 	Seed    int    `json:"seed"`
-	Second  bool   `json:"second"`            // a second plugin registers afterwards
-	Updates int    `json:"updates"`           // updates the plugin returns from Synchronize
-	NoSync  bool   `json:"no_sync,omitempty"` // the plugin has no Synchronize handler: the stub answers the (split) synchronization itself
+	Second  bool   `json:"second"`             // a second plugin registers afterwards
+	Updates int    `json:"updates"`            // updates the plugin returns from Synchronize
+	NoSync  bool   `json:"no_sync,omitempty"`  // the plugin has no Synchronize handler: the stub answers the (split) synchronization itself
+	SyncErr string `json:"sync_err,omitempty"` // "-" or a flavour of ErrKinds: the plugin's Synchronize handler deliberately returns an error
 	CutDir  int    `json:"cut_dir,omitempty"`
 	CutOff  int    `json:"cut_off,omitempty"` // > 0: the plugin's connection is cut after this many bytes of the given direction (counted from the start of synchronization)
 }
@@ -67,6 +68,12 @@ func c09Gen(rng *rand.Rand, conf string, idx int) any {
 		w.CutDir, w.CutOff = rng.Intn(2), 1+rng.Intn(40000)
 	} else if rng.Intn(6) == 0 {
 		w.NoSync, w.Updates = true, 0
+	} else if rng.Intn(6) == 0 {
+		// the handler refuses the state; "status:8" is what a plugin that cannot hold it would say
+		w.SyncErr = pick(rng, append([]string{"status:8", "status:8", "status:8"}, ErrKinds...))
+		if w.SyncErr == "" {
+			w.SyncErr = "-"
+		}
 	}
 	return w
 }
@@ -159,6 +166,16 @@ func c09Run(t *testing.T, wl any, sc SchedCfg) *Result {
 		}
 		if w.CutOff > 0 {
 			regime = "cut"
+		}
+		if w.SyncErr != "" {
+			regime = "handler-error"
+			kind := strings.TrimPrefix(w.SyncErr, "-")
+			h.Script = func(plugin, rpc, token string) *Reply {
+				if plugin == "syn" && rpc == "Synchronize" {
+					return &Reply{Err: "cannot take this state", ErrKind: kind}
+				}
+				return nil
+			}
 		}
 		res.Probe("C09.regime." + regime)
 		var rec *c15types.Rec
@@ -278,6 +295,10 @@ func c09Run(t *testing.T, wl any, sc SchedCfg) *Result {
 			}
 		}
 		switch regime {
+		case "handler-error":
+			if ok && len(syncs) > 0 {
+				res.Violate("C09.clean-failure", "the plugin's Synchronize handler returned an error (%s), yet the plugin was activated (%s)", w.SyncErr, desc)
+			}
 		case "small-objects":
 			if !ok {
 				res.Violate("C09.must-succeed", "every object is at most 1/16 of the message limit, yet synchronization failed: %s (%s)", cbErr, desc)
